@@ -283,6 +283,31 @@ fn limit_family(ctx: &Ctx, ops_pairs: &[(String, u8)], report: &mut Report) -> V
         let text: String = (0..n).map(|i| format!("{}", i % 10)).collect();
         out.push(mk("limit_interpolation_parts", format!("print(\"{}\");\n", parts), if oke { vec![Box::leak(text.into_boxed_str())] } else { vec![] }, if oke { "ok" } else { cerr }, json!({"parts": n})));
     }
+    // the local that reaches the limit is declared by each declaring form in turn (k plain locals, then
+    // the form, then uses of the first and last plain local and of what the form computed)
+    let forms: [(&str, &str, usize, i64); 6] = [
+        ("for_loop", "for v in [10, 20] { acc = acc + v; }", 2, 30),
+        ("catch_variable", "try { throw 5; } catch e { acc = acc + e; }", 1, 5),
+        ("local_function", "fn g() { return 7; } acc = acc + g();", 1, 7),
+        ("local_class", "class C { #[static] fn s() { return 9; } } acc = acc + C.s();", 1, 9),
+        ("block_local", "{ var z = 3; acc = acc + z; }", 1, 3),
+        ("derived_local_class", "#[derive(Base)] class D { #[static] fn s() { return 11; } } acc = acc + D.s();", 2, 11),
+    ];
+    for (name, form, extra, add) in forms {
+        for k in 250usize..=256 {
+            // `acc` is the first local; k - 1 further plain locals
+            let decl: String = (1..k).map(|i| format!("var l{} = {};", i, i)).collect();
+            let ok = k + extra <= 255;
+            let want = add + 1 + (k as i64 - 1);
+            out.push(mk(
+                "limit_locals_by_declaring_form",
+                format!("class Base {{}}\nfn f() {{ var acc = 0; {} {} return acc + l1 + l{}; }}\nprint(f());\n", decl, form, k - 1),
+                if ok { vec![Box::leak(format!("{}", want).into_boxed_str())] } else { vec![] },
+                if ok { "ok" } else { cerr },
+                json!({"form": name, "plain_locals": k, "locals_of_the_form": extra}),
+            ));
+        }
+    }
     // constants in one chunk: the names `x`, `print` take two entries
     for n in [65533usize, 65534, 65535] {
         let stmts: String = (0..n).map(|i| format!("x = {};", i + 7)).collect();
@@ -400,7 +425,7 @@ pub fn run(ctx: &Ctx) -> Report {
     report.cov("evaluations", json!(acc.functions + n_limits));
     report.cov("distinct_nontrivial", json!(acc.functions));
     report.cov("exhaustive", json!(true));
-    report.cov("rule", json!("O1: for every function compiled from the corpus (repository scripts, core.yl, and every program of the C05/C06/C07/C08/C18 generators at their quick bounds) the abstract state space (pc, operand-stack height) is explored exhaustively by worklist, with exceptional edges into catch/finally targets and the return edges of finally blocks; in every state: operands inside the code, jump targets on instruction boundaries, constants in range and of the right kind, local slot < height, capture indices in range, no underflow, no fall-off; each pc has exactly one height. Conformance: with the instruction-trace hook every concretely executed (function, pc, height) must be in the abstract set. O3: for each jump kind a body is sized (2- and 3-byte filler statements, operand measured from the emitted code) so that the distance is 65534..65537; counts of locals, captures, parameters/arguments, vec/tuple/map elements, interpolation parts at 254..257 and constants at the chunk limit: each program is rejected with a compile error or prints exactly the expected lines."));
+    report.cov("rule", json!("O1: for every function compiled from the corpus (repository scripts, core.yl, and every program of the C05/C06/C07/C08/C18 generators at their quick bounds) the abstract state space (pc, operand-stack height) is explored exhaustively by worklist, with exceptional edges into catch/finally targets and the return edges of finally blocks; in every state: operands inside the code, jump targets on instruction boundaries, constants in range and of the right kind, local slot < height, capture indices in range, no underflow, no fall-off; each pc has exactly one height. Conformance: with the instruction-trace hook every concretely executed (function, pc, height) must be in the abstract set. O3: for each jump kind a body is sized (2- and 3-byte filler statements, operand measured from the emitted code) so that the distance is 65534..65537; counts of locals (plain, and with the limit reached by a for loop, a catch variable, a local function, a local class, a block local, a derived local class), captures, parameters/arguments, vec/tuple/map elements, interpolation parts at 254..257 and constants at the chunk limit: each program is rejected with a compile error or prints exactly the expected lines."));
     report.cov("bounds", json!({"corpus_programs": n_sources, "limit_programs": n_limits}));
     report.cov("corpus_by_family", json!(fam_count));
     report.cov("functions_analysed", json!(acc.functions));
